@@ -69,6 +69,9 @@ def skeletons():
                                          "blocks": [blk(["if X is a then O is a and P is b", "if Y is b or X is b then P is a and O is b"])], "share_defuzzifier": True}
     S_["shared-weighted-defuzzifier-reversed"] = {"inputs": ins2, "outputs": [out("P", ("WeightedSum",), CONST, None), out("O", ("WeightedSum",), MONO, None)],
                                                   "blocks": [blk(["if X is a then O is a and P is b", "if Y is b or X is b then P is a and O is b"])], "share_defuzzifier": True}
+    # every rule that uses `and` in its antecedent also joins its conclusions with `and`
+    S_["and-rules-with-several-conclusions"] = {"inputs": ins2, "outputs": [out("O", ("Centroid", 2)), out("P", ("Centroid", 2))],
+                                                "blocks": [blk(["if X is a and Y is b then O is a and P is b", "if X is b then O is b and P is a and O is a"])]}
     S_["first-activation"] = {"inputs": ins2, "outputs": [out("O", ("LargestOfMaximum", 2))],
                               "blocks": [blk(["if X is a and Y is b then O is a", "if X is b or Y is a then O is b"], ("First", 1, 0.0))]}
     return S_
